@@ -598,6 +598,130 @@ func runC16(e *env) {
 	}
 
 	lap("gen")
+	// ---- 5b. call SEQUENCES on one long-lived generator object: the taken set grows and SHRINKS
+	// between calls (a reserved token taken in an earlier call is free again later), duplicates,
+	// varying requested counts. Every call is an ordinary C16.gen case: compared with the model's pure
+	// generateTokens(n, z, requested, taken) and judged against the contract, so a generator that keeps
+	// anything between calls (a cached taken set, a cursor, a shortened token list) shows up as a
+	// difference from what a fresh generator returns for the same arguments.
+	r5b := newRng(e.seed, 166)
+	type seqCall struct {
+		req   int
+		taken []uint32
+	}
+	type seqJob struct {
+		z, n   int
+		public bool
+		calls  []seqCall
+	}
+	var sj []seqJob
+	for i := 0; i < 40*genScale; i++ {
+		z := r5b.intn(8)
+		n := r5b.intn(12)
+		if r5b.chance(1, 4) {
+			n = r5b.intn(60)
+		}
+		own := []uint32(nil)
+		if maps[z] != nil {
+			own = maps[z][n]
+		}
+		pickOwn := func(num, den int) []uint32 {
+			var t []uint32
+			for _, v := range own {
+				if r5b.chance(num, den) {
+					t = append(t, v)
+				}
+			}
+			return t
+		}
+		job := seqJob{z: z, n: n, public: r5b.chance(1, 2)}
+		k := 3 + r5b.intn(4)
+		var prev []uint32
+		for c := 0; c < k; c++ {
+			var taken []uint32
+			switch r5b.intn(6) {
+			case 0: // nothing taken (everything taken earlier is free again)
+			case 1: // about 100 reserved tokens taken
+				taken = pickOwn(1, 5)
+			case 2: // a subset of the previous call's taken set (shrinks)
+				for _, v := range prev {
+					if r5b.chance(1, 2) {
+						taken = append(taken, v)
+					}
+				}
+			case 3: // a superset of the previous call's taken set (grows)
+				taken = append(append(taken, prev...), pickOwn(1, 6)...)
+			case 4: // nearly everything
+				taken = pickOwn(9, 10)
+			default: // duplicates and foreign values
+				for _, v := range pickOwn(1, 3) {
+					taken = append(taken, v, v)
+				}
+				taken = append(taken, r5b.u32(), 0)
+			}
+			req := 512
+			switch r5b.intn(5) {
+			case 0:
+				req = r5b.intn(520)
+			case 1:
+				req = 512 - len(taken)
+				if req < 0 {
+					req = 1
+				}
+			case 2:
+				req = 1 + r5b.intn(8)
+			}
+			job.calls = append(job.calls, seqCall{req, taken})
+			prev = taken
+		}
+		if i < 8 { // the plain scenario: nothing taken, ~100 reserved tokens taken, freed again
+			job.calls = []seqCall{{512, nil}, {512, pickOwn(1, 5)}, {512, nil}, {512, pickOwn(1, 2)}, {512, pickOwn(1, 8)}}
+		}
+		sj = append(sj, job)
+	}
+	type seqRes struct {
+		all string
+		obs []string
+	}
+	sres := make([]seqRes, len(sj))
+	c16Parallel(len(sj), func(i int) string {
+		j := sj[i]
+		all, _ := c16GenTokens(j.z, j.n, 512, nil, false, newRng(e.seed, uint64(5000+i)))
+		var g *ring.SpreadMinimizingTokenGenerator
+		if j.public {
+			var err error
+			g, err = ring.NewSpreadMinimizingTokenGenerator(fmt.Sprintf("ingester-%s-%d", c16ZoneNames[j.z], j.n), c16ZoneNames[j.z], c16ZoneNames, false)
+			if err != nil {
+				g = nil
+			}
+		} else {
+			g = ring.NewSpreadMinimizingTokenGeneratorForInstanceAndZoneID("p-", j.n, j.z, false)
+		}
+		res := seqRes{all: strings.TrimPrefix(all, "ok:")}
+		for _, c := range j.calls {
+			obs := "err:ctor"
+			if g != nil {
+				func() {
+					defer func() {
+						if rec := recover(); rec != nil {
+							obs = "err:panic"
+						}
+					}()
+					obs = "ok:" + u32s(g.GenerateTokens(c.req, c.taken))
+				}()
+			}
+			res.obs = append(res.obs, obs)
+		}
+		sres[i] = res
+		return ""
+	})
+	for i, j := range sj {
+		for k, c := range j.calls {
+			e.emit("C16.gen", fmt.Sprintf("%d,%d", j.z, j.n), itoa(c.req), u32s(c.taken), sres[i].all, sres[i].obs[k])
+		}
+	}
+
+	lap("genseq")
 	// ---- 6. partition rings: AddPartition on a real PartitionRingDesc (states, clocks, re-adds,
 	// pre-existing locked entries that must be overwritten, negative ids)
 	r6 := newRng(e.seed, 165)
